@@ -60,6 +60,11 @@ pub struct Gen<'a> {
     pub fun_file: Vec<usize>,
     pub cur_file: usize,
     pub visible_files: BTreeSet<usize>,
+    /// classes that are interfaces (`type`): never constructed
+    pub interfaces: BTreeSet<usize>,
+    /// stay with the productions the checker mostly accepts (files of generated projects:
+    /// C13 needs mostly valid projects)
+    pub conservative: bool,
 }
 
 const WORDS: &[&str] = &["alpha", "beta", "gamma", "delta", "omega", "kappa", "sigma", "theta", "zeta", "iota"];
@@ -79,6 +84,8 @@ impl<'a> Gen<'a> {
             fun_file: vec![],
             cur_file: 0,
             visible_files: BTreeSet::new(),
+            interfaces: BTreeSet::new(),
+            conservative: false,
         }
     }
 
@@ -112,7 +119,7 @@ impl<'a> Gen<'a> {
 
     fn plain_classes(&self) -> Vec<usize> {
         (0..self.classes.len())
-            .filter(|&i| !self.classes[i].is_exception && self.file_visible(self.class_file.get(i).cloned().unwrap_or(self.cur_file)))
+            .filter(|&i| !self.classes[i].is_exception && !self.interfaces.contains(&i) && self.file_visible(self.class_file.get(i).cloned().unwrap_or(self.cur_file)))
             .collect()
     }
 
@@ -135,7 +142,7 @@ impl<'a> Gen<'a> {
     /// classes of other (visible) files
     pub fn foreign_plain_classes(&self) -> Vec<usize> {
         (0..self.classes.len())
-            .filter(|&i| !self.classes[i].is_exception && self.class_file.get(i).map(|f| *f != self.cur_file && self.visible_files.contains(f)).unwrap_or(false))
+            .filter(|&i| !self.classes[i].is_exception && !self.interfaces.contains(&i) && self.class_file.get(i).map(|f| *f != self.cur_file && self.visible_files.contains(f)).unwrap_or(false))
             .collect()
     }
 
@@ -331,8 +338,8 @@ impl<'a> Gen<'a> {
             let mut cands = pc.clone();
             self.rng.shuffle(&mut cands);
             for &p in cands.iter().take(np) {
-                // not two parents where one is an ancestor of the other
-                if info.parents.iter().any(|&q| self.is_subclass(p, q) || self.is_subclass(q, p)) {
+                // mostly not two parents where one is an ancestor of the other
+                if info.parents.iter().any(|&q| self.is_subclass(p, q) || self.is_subclass(q, p)) && !self.rng.chance(1, 3) {
                     continue;
                 }
                 let pa = self.classes[p].args.clone();
@@ -386,8 +393,25 @@ impl<'a> Gen<'a> {
         let ci = self.classes.len();
         self.classes.push(info.clone());
         for _ in 0..nm {
-            let ret = self.prim();
-            let n = self.fresh("m");
+            let mut ret = self.prim();
+            // sometimes reuse the name (and maybe the return type) of a method of an earlier
+            // class: unions of the two classes then have a method both members define
+            let earlier: Vec<Method> = self
+                .plain_classes()
+                .into_iter()
+                .filter(|&c| c != ci)
+                .flat_map(|c| self.classes[c].methods.clone())
+                .filter(|m| !self.classes[ci].methods.iter().any(|o| o.name == m.name))
+                .collect();
+            let n = if !earlier.is_empty() && self.rng.chance(1, 4) {
+                let m = self.rng.pick(&earlier).clone();
+                if self.rng.chance(2, 3) {
+                    ret = m.ret.clone();
+                }
+                m.name
+            } else {
+                self.fresh("m")
+            };
             let mut params = vec![];
             for _ in 0..self.rng.below(3) {
                 params.push((self.fresh("p"), self.prim()));
@@ -625,6 +649,153 @@ impl<'a> Gen<'a> {
         }
     }
 
+    /// operations whose receiver / operand has a (written) union type: method calls on a union
+    /// of two classes that share a method name, operators and `in` on unions of primitives and
+    /// collections, loops over union-typed collections
+    fn gen_union_receiver(&mut self, v: &str) {
+        // two classes sharing a method name
+        let pc = self.plain_classes();
+        let mut pairs: Vec<(usize, usize, String)> = vec![];
+        for &a in &pc {
+            for &b in &pc {
+                if a < b {
+                    for m in &self.classes[a].methods {
+                        if self.classes[b].methods.iter().any(|o| o.name == m.name) {
+                            pairs.push((a, b, m.name.clone()));
+                        }
+                    }
+                }
+            }
+        }
+        let choice = self.rng.below(6);
+        if !pairs.is_empty() && choice <= 2 {
+            let (a, b, m) = self.rng.pick(&pairs).clone();
+            let (an, bn) = (self.classes[a].name.clone(), self.classes[b].name.clone());
+            let which = if self.rng.chance(1, 2) { a } else { b };
+            let ctor = self.ctor(which, 2);
+            self.out.push_str(&format!("def {v}: {{{an}, {bn}}} := {ctor}\n"));
+            // arguments that fit one of the two signatures
+            let sig = self.classes[if self.rng.chance(1, 2) { a } else { b }].methods.iter().find(|o| o.name == m).cloned().unwrap();
+            let args: Vec<String> = sig.params.iter().map(|(_, t)| self.lit(t)).collect();
+            let r = self.fresh("v");
+            if self.rng.chance(1, 2) {
+                self.out.push_str(&format!("def {r} := {v}.{m}({})\n", args.join(", ")));
+            } else {
+                self.out.push_str(&format!("{v}.{m}({})\n", args.join(", ")));
+            }
+            return;
+        }
+        let mut prims = vec![Ty::Int, Ty::Str, Ty::Bool, Ty::Float];
+        self.rng.shuffle(&mut prims);
+        let (t1, t2) = (prims[0].clone(), prims[1].clone());
+        let (n1, n2) = (self.ty_name(&t1), self.ty_name(&t2));
+        let r = self.fresh("v");
+        match choice {
+            3 => {
+                let l = self.lit(&t1);
+                let o = if self.rng.chance(1, 2) { self.lit(&t1) } else { self.lit(&t2) };
+                let op = *self.rng.pick(&["=", "+", "<", "!="]);
+                self.out.push_str(&format!("def {v}: {{{n1}, {n2}}} := {l}\ndef {r} := {v} {op} {o}\n"));
+            }
+            4 => {
+                let (c1, c2) = if self.rng.chance(1, 2) { ("List", "Set") } else { ("List", "List") };
+                let lit = format!("[{}]", self.lit(&t1));
+                let probe = if self.rng.chance(1, 2) { self.lit(&t1) } else { self.lit(&t2) };
+                self.out.push_str(&format!("def {v}: {{{c1}[{n1}], {c2}[{n2}]}} := {lit}\ndef {r} := {probe} in {v}\n"));
+            }
+            _ => {
+                let lit = format!("[{}]", self.lit(&t1));
+                let i = self.fresh("i");
+                let w = self.fresh("w");
+                self.out.push_str(&format!("def {v}: {{List[{n1}], Set[{n2}]}} := {lit}\nfor {i} in {v} do\n    def {w} := {i}\n"));
+            }
+        }
+    }
+
+    /// an interface with bodiless members and a class implementing it
+    pub fn gen_interface_pair(&mut self) {
+        self.counter += 1;
+        let iname = format!("{}I{}", capitalise(&self.prefix), self.counter);
+        let m = self.fresh("m");
+        let (pt, rt) = (self.prim(), self.prim());
+        let p = self.fresh("p");
+        let with_field = self.rng.chance(1, 2);
+        let f = self.fresh("f");
+        let ft = self.prim();
+        self.out.push_str(&format!("type {iname}\n    def {m}(self, {p}: {}) -> {}\n", self.ty_name(&pt), self.ty_name(&rt)));
+        if with_field {
+            self.out.push_str(&format!("    def {f}: {}\n", self.ty_name(&ft)));
+        }
+        self.out.push('\n');
+        // the interface itself: usable as a parent of later classes and as a parameter type
+        let ii = self.classes.len();
+        self.classes.push(ClassInfo { name: iname.clone(), args: vec![], fields: vec![], methods: vec![], parents: vec![], is_exception: false });
+        self.interfaces.insert(ii);
+        self.counter += 1;
+        let cname = format!("{}C{}", capitalise(&self.prefix), self.counter);
+        // sometimes through an intermediate class, and with the interface repeated as a parent
+        let mut parent_list = iname.clone();
+        let mut parents_idx = vec![ii];
+        if self.rng.chance(1, 3) {
+            self.counter += 1;
+            let bname = format!("{}C{}", capitalise(&self.prefix), self.counter);
+            let body0 = self.lit(&rt);
+            self.out.push_str(&format!("class {bname}: {iname}\n"));
+            if with_field {
+                let l0 = self.lit(&ft);
+                self.out.push_str(&format!("    def {f}: {} := {l0}\n", self.ty_name(&ft)));
+            }
+            self.out.push_str(&format!("    def {m}(self, {p}: {}) -> {} => {body0}\n\n", self.ty_name(&pt), self.ty_name(&rt)));
+            let bi = self.classes.len();
+            let mut binfo = ClassInfo { name: bname.clone(), args: vec![], fields: vec![], methods: vec![Method { name: m.clone(), params: vec![(p.clone(), pt.clone())], ret: rt.clone() }], parents: vec![ii], is_exception: false };
+            if with_field {
+                binfo.fields.push((f.clone(), ft.clone()));
+            }
+            self.classes.push(binfo);
+            parent_list = if self.rng.chance(1, 2) { format!("{bname}, {iname}") } else { bname.clone() };
+            parents_idx = vec![bi, ii];
+        }
+        self.out.push_str(&format!("class {cname}: {parent_list}\n"));
+        let mut info = ClassInfo { name: cname.clone(), args: vec![], fields: vec![], methods: vec![], parents: parents_idx, is_exception: false };
+        if with_field {
+            let l = self.lit(&ft);
+            self.out.push_str(&format!("    def {f}: {} := {l}\n", self.ty_name(&ft)));
+            info.fields.push((f, ft));
+        }
+        let body = self.lit(&rt);
+        self.out.push_str(&format!("    def {m}(self, {p}: {}) -> {} => {body}\n\n", self.ty_name(&pt), self.ty_name(&rt)));
+        info.methods.push(Method { name: m, params: vec![(p, pt)], ret: rt });
+        self.classes.push(info);
+        // sometimes an interface with a body over the concrete class
+        if self.rng.chance(1, 2) {
+            self.counter += 1;
+            let tname = format!("{}I{}", capitalise(&self.prefix), self.counter);
+            let m2 = self.fresh("m");
+            let r2 = self.prim();
+            self.out.push_str(&format!("type {tname}: {cname}\n    def {m2}(self) -> {}\n\n", self.ty_name(&r2)));
+        }
+    }
+
+    /// a refinement alias of a class with an Int field, and a function taking it
+    fn gen_alias(&mut self) {
+        let pc = self.plain_classes();
+        let cands: Vec<(usize, String)> = pc.iter().flat_map(|&c| self.classes[c].fields.iter().filter(|(_, t)| *t == Ty::Int).map(move |(n, _)| (c, n.clone())).collect::<Vec<_>>()).collect();
+        if cands.is_empty() {
+            self.counter += 1;
+            let a = format!("{}A{}", capitalise(&self.prefix), self.counter);
+            self.out.push_str(&format!("type {a}: Int when self >= 0\n"));
+            return;
+        }
+        let (c, f) = self.rng.pick(&cands).clone();
+        self.counter += 1;
+        let a = format!("{}A{}", capitalise(&self.prefix), self.counter);
+        let cn = self.classes[c].name.clone();
+        self.out.push_str(&format!("type {a}: {cn} when self.{f} > {}\n", self.rng.below(9)));
+        let fname = self.fresh("afn");
+        let p = self.fresh("p");
+        self.out.push_str(&format!("def {fname}({p}: {a}) -> Int => {p}.{f}\n"));
+    }
+
     /// unions whose members share a class name and differ in generics or nullability:
     /// lists / sets / tuples of different element types, `{T, T?}`
     fn gen_same_class_union(&mut self, v: &str) {
@@ -703,8 +874,11 @@ impl<'a> Gen<'a> {
 
     fn gen_toplevel(&mut self) {
         let v = self.fresh("v");
-        match self.rng.below(21) {
+        let kinds = if self.conservative { 17 } else { 25 };
+        match self.rng.below(kinds) {
             18 | 19 | 20 => self.gen_same_class_union(&v),
+            21 | 22 | 23 => self.gen_union_receiver(&v),
+            24 => self.gen_alias(),
             16 => {
                 let (ut, tys) = self.union_ty();
                 let k = self.rng.below(tys.len() as u64) as usize;
@@ -880,6 +1054,9 @@ impl<'a> Gen<'a> {
         for _ in 0..ncls {
             self.gen_class();
         }
+        if self.rng.chance(1, 5) {
+            self.gen_interface_pair();
+        }
         if self.rng.chance(1, 3) {
             self.gen_exceptions();
         }
@@ -899,6 +1076,9 @@ impl<'a> Gen<'a> {
         let ncls = self.rng.below(3);
         for _ in 0..ncls {
             self.gen_class();
+        }
+        if self.rng.chance(1, 6) {
+            self.gen_interface_pair();
         }
         if self.rng.chance(1, 5) {
             self.gen_exceptions();
